@@ -71,6 +71,14 @@ def replay_history(chk, h, l, shared=None):
           remotelib.leave_shutting(server)
           dist.ScaledTime.jump(500.0)      # the client's heartbeat goes stale
           state = 'stopped'
+        if sh == 'restarted' and state != 'restarted':
+          if state == 'up':
+            server._request_shutdown()
+          if state in ('up', 'shutting'):
+            remotelib.leave_shutting(server)
+            dist.ScaledTime.jump(500.0)
+          server.start()                    # the same server object serves again
+          state = 'restarted'
         if req['t'] == 'new':
           status, got = dist.run_with_deadline(lambda: _outcome(lambda: rem.new(req['kind'])), 20)
           local = ('ok', ('ref', len(twins) + 1))
@@ -85,6 +93,8 @@ def replay_history(chk, h, l, shared=None):
             local = _outcome(lambda: ('ref', len(twins) + 1))
             if status == 'ok' and got[0] == 'ok':
               twins[got[1][1]] = iter(twins[i])
+          elif want[0] == 'err' and want[1] == 'Unreachable':
+            local = None          # the request never reached a server: the twin does not move either
           elif op == 'next':
             local = _outcome(lambda: ('value', next(twins[i])))
           else:
@@ -108,7 +118,7 @@ def replay_history(chk, h, l, shared=None):
             chk.violation(f'remote:wrong-answer:{req.get("op") or "new"}', f'{desc}: spec {want}, real {got!r}', ctx)
             continue
         # --- against the local twin (same value; same exception type and message)
-        if sh == 'up':
+        if sh in ('up', 'restarted'):
           if got[0] == 'ok':
             if local[0] != 'ok' or tuple(local[1]) != tuple(got[1]):
               chk.violation('remote:differs-from-local:value', f'{desc}: remote {got!r} local {local!r}', ctx)
@@ -257,6 +267,63 @@ def record_spanning():
   return trace, hung
 
 
+def async_part(chk):
+  """The async client path (async_get_result / __anext__ / async_get / async_iter): the same elements and the same
+  return values of the exhaustion signal as draining locally."""
+  import asyncio
+  from ml_metrics._src.chainables import lazy_fns
+  from ml_metrics._src.utils import iter_utils
+
+  def drain(q):
+    out = []
+    while True:
+      try:
+        out.append(q.get())
+      except StopIteration:
+        return out
+
+  def local(iterables):
+    q = iter_utils.IteratorQueue(0, name='local', max_enqueuer=len(iterables))
+    for it in iterables:
+      q.enqueue_from_iterator(it)
+    return drain(q), list(q.returned)
+
+  with remotelib.server_and_client('async') as (mods, server, client):
+    cu = mods.courier_utils
+    cases = []
+    for shape in ('list', 'empty', 'gen_none', 'gen_ret'):
+      cases.append((f'async_iter {shape}', [shape], 'async_iter'))
+      cases.append((f'RemoteIterator {shape}', [shape], 'remote_iterator'))
+    cases.append(('RemoteIteratorQueue two generators with returns', ['gen_ret', 'gen_ret'], 'remote_queue'))
+    cases.append(('RemoteIteratorQueue generators with and without return', ['gen_none', 'gen_ret'], 'remote_queue'))
+    for name, shapes, how in cases:
+      want = local([remotelib.make_iter(s_) for s_ in shapes])
+
+      async def run():
+        aq = iter_utils.AsyncIteratorQueue(0, name='sink', timeout=10)
+        if how == 'async_iter':
+          src = await client.async_iter(lazy_fns.trace(remotelib.make_iter)(shapes[0]), name='r')
+        elif how == 'remote_iterator':
+          src = cu.RemoteIterator.new(remotelib.make_iter(shapes[0]), server_addr=client)
+        else:
+          q = iter_utils.IteratorQueue(0, name='fed', max_enqueuer=len(shapes))
+          for s_ in shapes:
+            q.enqueue_from_iterator(remotelib.make_iter(s_))
+          src = cu.RemoteIteratorQueue.new(q, server_addr=client, name='rq')
+        await aq.async_enqueue_from_iterator(src)
+        return drain(aq), list(aq.returned)
+
+      status, val = dist.run_with_deadline(lambda: asyncio.run(run()), 20)
+      chk.replayed()
+      ctx = dict(kind='remote-async', case=name)
+      if status != 'ok':
+        chk.violation(f'async:{status}:{how}', f'[{name}] {val!r}', ctx)
+      elif sorted(val[0]) != sorted(want[0]):
+        chk.violation(f'async:elements:{how}', f'[{name}] remote {val[0]} local {want[0]}', ctx)
+      elif val[1] != want[1]:
+        chk.violation(f'async:return-values:{how}', f'[{name}] the exhaustion signal carried {val[1]} remotely, {want[1]} locally', ctx)
+
+
 def remote_queue(chk, n, consumers, seed):
   """RemoteIteratorQueue over an IteratorQueue on a server, concurrent consumers."""
   from ml_metrics._src.utils import iter_utils
@@ -307,7 +374,7 @@ def body(chk):
     if not mc.ok:
       chk.machinery_failure(f'Remote.tla violates {mc.error_kind} {mc.error_name}')
     covered |= {a for a, (d, _) in mc.coverage.items() if d}
-  missing = [a for a in ['CallNew', 'CallOp', 'Handle', 'GiveUp', 'Ret', 'Shutdown', 'Stop'] if a not in covered]
+  missing = [a for a in ['CallNew', 'CallOp', 'Handle', 'GiveUp', 'Ret', 'Shutdown', 'Stop', 'Restart'] if a not in covered]
   if missing:
     chk.machinery_failure(f'vacuous model: {missing} never taken')
   # 2. every single-client behaviour on the real code next to a local twin
@@ -323,13 +390,17 @@ def body(chk):
     if not gen.ok:
       chk.machinery_failure(f'Remote export failed: {gen.error_kind} {gen.error_name}')
     hs = gen.histories
-    cap = 4000 if thorough else 350
+    cap = 4000 if thorough else 220
     if len(hs) > cap:
       hs = rnd.sample(hs, cap)
       chk.coverage['exhaustive'] = False
     plain = [h for h in hs if all(st['sh'] == 'up' for st in h['hist']['c1'])]
+    restarted = [h for h in hs if any(st['sh'] == 'restarted' for st in h['hist']['c1'])]
     shut = [h for h in hs if h not in plain]
-    stopped = [h for h in shut if any(st['sh'] == 'stopped' for st in h['hist']['c1'])]
+    stopped = [h for h in shut if any(st['sh'] == 'stopped' for st in h['hist']['c1']) and h not in restarted]
+    if len(restarted) > (300 if thorough else 25):
+      keep_r = rnd.sample(restarted, 300 if thorough else 25)
+      shut = [h for h in shut if h not in restarted or h in keep_r]
     if len(stopped) > (200 if thorough else 12):      # a stopped server is outside C14: a sample is enough
       keep = rnd.sample(stopped, 200 if thorough else 12)
       shut = [h for h in shut if h not in stopped or h in keep]
@@ -348,8 +419,8 @@ def body(chk):
   if not lg.ok:
     chk.machinery_failure(f'LazyEval export failed: {lg.error_kind} {lg.error_name}')
   exprs = [h['expr'] for h in lg.histories]
-  if len(exprs) > (6000 if thorough else 600):
-    exprs = rnd.sample(exprs, 6000 if thorough else 600)
+  if len(exprs) > (6000 if thorough else 400):
+    exprs = rnd.sample(exprs, 6000 if thorough else 400)
   chk.count('expressions', replay_expressions(chk, exprs))
   # 4. concurrent clients: recorded executions validated against the spec
   traces, hung = [], 0
@@ -385,6 +456,7 @@ def body(chk):
     chk.coverage['corrupted_trace_rejected'] = not acc2
     if acc2:
       chk.machinery_failure('Trace_Remote accepted a corrupted trace: the binding is vacuous')
+  async_part(chk)
   # 5. remote queue
   for n, consumers in ((0, 1), (3, 1), (5, 2), (6, 3)):
     remote_queue(chk, n, consumers, chk.seed)
